@@ -809,7 +809,12 @@ def gen_C14(rng, tier):
         tail = []
         if wrap == 'count' and rng.random() < 0.5:
             tail = ['reopen', rng.choice(['ct', 'cf', 'gc']) + ' %d' % rng.randrange(0, 100), 'stat', 'rp %d' % rng.randrange(1, cap + 1), 'rsp 1', 'stat']
-        ops = w + ['stat', 'wf', 'stat', 'wd', 'reopen'] + r + ['stat'] + (['pos'] if wrap == 'count' else []) + tail
+        again = []
+        if wrap == 'count' and rng.random() < 0.4:
+            # a seek consumes nothing: rewind and read the same items again
+            k = rng.randrange(0, len(r) + 1)
+            again = ['seek 0', 'stat'] + r[:k] + ['stat', 'pos']
+        ops = w + ['stat', 'wf', 'stat', 'wd', 'reopen'] + r + ['stat'] + (['pos'] if wrap == 'count' else []) + again + tail
         lines.append('S %s ww=%d wrap=%s :: %s' % (cfg, ww, wrap, ' ; '.join(ops)))
     return lines
 
